@@ -1,5 +1,7 @@
 """C02 — decoder is total, memory-safe, local and spec-faithful on arbitrary bytes (packet/)."""
 
+import os
+
 ASSUMPTIONS = [
     "ownership (the decoded packet does not alias the source buffer) cannot be expressed in an immutable model: "
     "it is decided on the Go side of the tie by overwriting the source buffer after every successful decode",
@@ -16,7 +18,7 @@ def run(ck):
     ck.coq()
     if not ck.build_harness("codecdec"):
         return
-    extra = ["-replay", ck.replay] if ck.replay else []
+    extra = ["-replay", os.path.abspath(ck.replay)] if ck.replay else []   # the harness runs in .work/
     path, _ = ck.harness("c02", extra=extra)
     lines = ck.model("codecdec", "c02", path)
     # index the case lines that are referred to by a verdict line
